@@ -405,14 +405,20 @@ func (p *Program) verifyFunction(key string) *FuncResult {
 				// a closure is keyed by its enclosing method; the receiver in the header is not a parameter
 				fc.ParamNames, fc.ParamTypes = fc.ParamNames[1:], fc.ParamTypes[1:]
 			}
+			staleHeader := false
 			if len(fc.ParamNames) != len(fn.Params) {
-				res.Err = fmt.Errorf("contract-stale: %s header has %d parameters, function has %d", key, len(fc.ParamNames), len(fn.Params))
-				return
-			}
-			for i, pn := range fc.ParamNames {
-				if pn != fn.Params[i].Name() {
-					// allow the contract to name parameters itself
-					g.paramEnv[pn] = g.vals[fn.Params[i]]
+				// The function's signature changed under its contract. Parameters are then bound by their own
+				// names only; a precondition that can no longer be stated is DROPPED (never assumed), and every
+				// other clause is checked without it — so a change that removed what an obligation relied on
+				// fails that obligation instead of hiding behind a stale contract.
+				staleHeader = true
+				g.ctx.note(fmt.Sprintf("contract header of %s has %d parameters, the function has %d: unstatable preconditions are dropped", key, len(fc.ParamNames), len(fn.Params)))
+			} else {
+				for i, pn := range fc.ParamNames {
+					if pn != fn.Params[i].Name() {
+						// allow the contract to name parameters itself
+						g.paramEnv[pn] = g.vals[fn.Params[i]]
+					}
 				}
 			}
 			for _, gv := range fc.Ghosts {
@@ -432,6 +438,10 @@ func (p *Program) verifyFunction(key string) *FuncResult {
 				e := g.newEnv(st, st)
 				t, err := g.elabBool(cl.E, e)
 				if err != nil {
+					if staleHeader {
+						g.ctx.note(fmt.Sprintf("precondition %s of %s dropped: %v", cl.Label, key, err))
+						continue
+					}
 					g.contractError(cl, err)
 					continue
 				}
